@@ -1,1 +1,79 @@
-(* placeholder *)
+(** C07 — whenever no transaction is in progress every index agrees with its
+    table.  Objects: Model/Engine.v; [ereachable], [IdxInv], [quiescent],
+    [row_entries] in Proofs/EngineProofs.v.  Statements only. *)
+From Coq Require Import List NArith ZArith Bool Permutation.
+From SDB Require Import Base.Assoc Model.Lock Model.SqlRef Model.Engine Proofs.EngineProofs.
+Import ListNotations.
+Open Scope N_scope.
+
+(** The inductive invariant, valid in EVERY reachable state (transactions in
+    progress included): for every index (column c) and every pair (k, rid) the
+    number of entries (k, rid) is
+      0                               if rid is the old location of a pending
+                                      relocating update (entry already moved),
+      [column c of the row = k]       if rid is in the heap - delete-marked rows
+                                      included: their entries stay until commit,
+      0                               if rid is free.
+    Pending inserts and updates already have their entries. *)
+Theorem idx_inv_reachable : forall s, ereachable s ->
+  forall c es, In (c, es) (idx s) -> forall k r,
+    (MovedW (agetl (wsets s)) r -> cnt (k, r) es = 0%nat) /\
+    (~ MovedW (agetl (wsets s)) r ->
+     cnt (k, r) es = match aget (rows s) r with
+                     | Some (tp, _) => if veqb (ecol c tp) k then 1%nat else 0%nat
+                     | None => 0%nat
+                     end).
+Proof. exact idx_inv_reachable_lemma. Qed.
+Print Assumptions idx_inv_reachable.
+
+(** No transaction in progress (every write set empty), after any mix of
+    committed and aborted work: each index is, as a multiset, exactly the list
+    of (column value, rid) of the rows of the table. *)
+Theorem index_agrees_when_quiescent : forall s, ereachable s -> quiescent s ->
+  forall c es, In (c, es) (idx s) ->
+    Permutation es (map (fun e => (ecol c (fst (snd e)), fst e)) (rows s)).
+Proof. exact index_agrees_when_quiescent_lemma. Qed.
+Print Assumptions index_agrees_when_quiescent.
+
+(** Hence a lookup returns exactly the rids of the rows whose column holds the
+    key: the same multiset of rids as a scan of the heap ... *)
+Theorem quiescent_lookup_is_heap_scan : forall s c k, ereachable s -> quiescent s ->
+  In c (icols s) -> Permutation (ilookup s c k) (heap_rids s c k).
+Proof. exact quiescent_lookup_lemma. Qed.
+Print Assumptions quiescent_lookup_is_heap_scan.
+
+(** ... i.e. rid is returned iff it holds a row with that key. *)
+Theorem quiescent_lookup_exact : forall s c k rid, ereachable s -> quiescent s ->
+  In c (icols s) ->
+  (In rid (ilookup s c k) <->
+   exists tp mk, aget (rows s) rid = Some (tp, mk) /\ ecol c tp = k).
+Proof. exact quiescent_lookup_exact_lemma. Qed.
+Print Assumptions quiescent_lookup_exact.
+
+(** The heap list never holds a rid twice. *)
+Theorem heap_rids_unique : forall s, ereachable s -> NoDup (map fst (rows s)).
+Proof. exact rows_nodup_reach. Qed.
+Print Assumptions heap_rids_unique.
+
+(** Non-vacuity: interleaved committed and aborted work of three transactions
+    (insert, key-changing update, relocation, delete, a conflict abort), then
+    nobody in progress; equal keys in several rows. *)
+Definition c07_state : estate :=
+  erun [OpInsert 1 10 [VInt 5; VInt 1]; OpInsert 1 11 [VInt 5; VInt 2];
+        OpInsert 2 12 [VInt 6; VInt 2]; OpCommit 1;
+        OpUpdate 3 10 [VInt 6; VInt 1]; OpUpdateMove 2 12 13 [VInt 5; VInt 3];
+        OpDelete 3 11; OpRead 2 10; OpCommit 3;
+        OpInsert 1 14 [VInt 9; VInt 9]; OpUpdateMove 1 10 15 [VInt 5; VInt 4];
+        OpAbort 1; OpInsert 2 16 [VInt 6; VInt 2]; OpCommit 2]
+       (einit [0%nat; 1%nat]).
+
+Example c07_nonvacuous :
+  wsets c07_state = [] /\
+  map fst (rows c07_state) = [10; 16] /\
+  ilookup c07_state 0 (VInt 6) = [10; 16] /\ heap_rids c07_state 0 (VInt 6) = [10; 16] /\
+  ilookup c07_state 0 (VInt 5) = [] /\ ilookup c07_state 1 (VInt 2) = [16] /\
+  nth 7 (eouts [OpInsert 1 10 [VInt 5; VInt 1]; OpInsert 1 11 [VInt 5; VInt 2];
+        OpInsert 2 12 [VInt 6; VInt 2]; OpCommit 1;
+        OpUpdate 3 10 [VInt 6; VInt 1]; OpUpdateMove 2 12 13 [VInt 5; VInt 3];
+        OpDelete 3 11; OpRead 2 10] (einit [0%nat; 1%nat])) EOk = EAborted.
+Proof. vm_compute. repeat split. Qed.
